@@ -382,3 +382,87 @@ func formattingSweep() {
 		}
 	}
 }
+
+// laterCut draws a truncation length: every second length from `from` to total-1 (thorough: every length), the last
+// two, and a few earlier ones.
+func laterCut(total, from int) int {
+	cs := []int{0, 1, from / 2}
+	for k := from; k < total; k++ {
+		if nd.Thorough() || (k-from)%2 == 0 || k >= total-2 {
+			cs = append(cs, k)
+		}
+	}
+	return cs[nd.IntRange(0, len(cs)-1)]
+}
+
+// H_C20_FailedParseDense: as H_C20_FailedParse, at every second (thorough: every) truncation length after the destination / blinded key (where
+// parsers have stored some fields and not others), with shapes that carry long transient keys and long payloads, and
+// CONCRETE content (zero bytes plus the shape's pinned fields: an enumeration of cut point x method by the executor;
+// symbolic content at sampled cut points is H_C20_FailedParse's part); one exported method per path.
+//
+//verif:props C20 C04
+//verif:witness failed
+//verif:fanout 1000
+func H_C20_FailedParseDense() {
+	concreteShapes = true
+	defer func() { concreteShapes = false }()
+	which := nd.IntRange(0, 4)
+	covShape("case", which)
+	switch which {
+	case 0:
+		shapes := []ls2Shape{{7, 4, 0, -1, 0, []int{32}, 1, 0}, {7, 4, 0, 1, 0, []int{32}, 1, 0}}
+		s := shapes[nd.IntRange(0, len(shapes)-1)]
+		in, total := s.build()
+		v, _, err := lease_set2.ReadLeaseSet2(in[:laterCut(total, 389)])
+		if err == nil {
+			return
+		}
+		nd.Cover("failed")
+		ok := sweep_lease_set2_LeaseSet2(&v, nd.IntRange(0, n_sweep_lease_set2_LeaseSet2-1))
+		nd.Assert(!ok, "failed-parse-dense/ls2-verify-not-success")
+	case 1:
+		shapes := []metaShape{{7, 4, 0, -1, 0, []int{0}, 0}, {7, 4, 0, 1, 0, []int{0}, 0}}
+		if nd.Thorough() {
+			shapes = append(shapes, metaShape{7, 4, 0, 0, 0, []int{0}, 0})
+		}
+		s := shapes[nd.IntRange(0, len(shapes)-1)]
+		in, total := s.build()
+		v, _, err := meta_leaseset.ReadMetaLeaseSet(in[:laterCut(total, 389)])
+		if err == nil {
+			return
+		}
+		nd.Cover("failed")
+		ok := sweep_meta_leaseset_MetaLeaseSet(&v, nd.IntRange(0, n_sweep_meta_leaseset_MetaLeaseSet-1))
+		nd.Assert(!ok, "failed-parse-dense/meta-verify-not-success")
+	case 2:
+		shapes := []encShape{{11, -1, 100, 0}, {11, 1, 61, 0}, {7, -1, 61, 0}}
+		s := shapes[nd.IntRange(0, len(shapes)-1)]
+		in, total := s.build()
+		v, _, err := encrypted_leaseset.ReadEncryptedLeaseSet(in[:laterCut(total, 32)])
+		if err == nil {
+			return
+		}
+		nd.Cover("failed")
+		ok := sweep_encrypted_leaseset_EncryptedLeaseSet(&v, nd.IntRange(0, n_sweep_encrypted_leaseset_EncryptedLeaseSet-1))
+		nd.Assert(!ok, "failed-parse-dense/enc-verify-not-success")
+	case 3:
+		in, total := riShape{7, 4, 0, []raShape{{2, 0}}, 0, 0}.build()
+		v, _, err := router_info.ReadRouterInfo(in[:laterCut(total, 389)])
+		if err == nil {
+			return
+		}
+		nd.Cover("failed")
+		ok := sweep_router_info_RouterInfo(&v, nd.IntRange(0, n_sweep_router_info_RouterInfo-1))
+		nd.Assert(!ok, "failed-parse-dense/ri-verify-not-success")
+	case 4:
+		in, total := lsShape{7, 0, 0, 1, 0}.build()
+		in[391+255] = 2 // ElGamal key inside the certainly-valid region
+		v, err := lease_set.ReadLeaseSet(in[:laterCut(total, 389)])
+		if err == nil {
+			return
+		}
+		nd.Cover("failed")
+		ok := sweep_lease_set_LeaseSet(&v, nd.IntRange(0, n_sweep_lease_set_LeaseSet-1))
+		nd.Assert(!ok, "failed-parse-dense/ls-verify-not-success")
+	}
+}
